@@ -307,6 +307,20 @@ func runPolicyCodec(payload []*Sx) *Sx {
 	if string(text) != snapshot {
 		return problem("second-rendering-differs", snapshot, string(text))
 	}
+	// what the streaming Encoder writes, the Decoder reads back as the same policy
+	{
+		var sb bytes.Buffer
+		if err := cedar.NewEncoder(&sb).Encode(p); err != nil {
+			return problem("encoder-error", err.Error())
+		}
+		var q cedar.Policy
+		if err := cedar.NewDecoder(bytes.NewReader(sb.Bytes())).Decode(&q); err != nil {
+			return problem("encoder-output-does-not-decode", sb.String(), err.Error())
+		}
+		if string(q.MarshalCedar()) != string(text) {
+			return problem("stream-changes-policy", string(text), string(q.MarshalCedar()))
+		}
+	}
 	var pt cedar.Policy
 	if err := pt.UnmarshalCedar(text); err != nil {
 		return problem("text-does-not-parse", string(text), err.Error())
